@@ -103,8 +103,7 @@ Arith(op, x, y) ==         \* x op y on exact guesses
 
 (* what the result of `left op right` must be, when the current object (a prior) is on `side` *)
 Outcome(op, other, side) ==
-   IF other.k \in {"str", "none"} THEN
-        (IF op = "pow" THEN "derived_or_raises" ELSE "raises")
+   IF other.k \in {"str", "none"} THEN "raises"        \* every operator, powers included
    ELSE IF IsNum(other) THEN
         (IF op = "add" /\ IsZero(other.v) THEN "same"
          ELSE IF op = "mul" /\ IsZero(other.v) THEN "raises"
